@@ -14,6 +14,7 @@ extern "C" const char* __asan_default_options() { return "exitcode=77:detect_lea
 extern "C" const char* __ubsan_default_options() __attribute__((used, visibility("default")));
 extern "C" const char* __ubsan_default_options() { return "halt_on_error=1:exitcode=77:print_stacktrace=1"; }
 
+extern std::set<uint64_t> g_abstract_states;
 static volatile long g_current_run = -1;
 
 static void on_signal(int sig) {
@@ -198,7 +199,7 @@ int main(int argc, char** argv) {
 	js << "{\"variant\":\"" << g_info->variant << "\",\"runs\":" << g_stats.runs << ",\"executions\":" << (g_stats.runs ? g_stats.ops : 0) << ",\"ops\":" << g_stats.ops
 	   << ",\"hooks\":" << g_stats.hooks << ",\"ticks\":" << g_stats.ticks << ",\"actions\":" << g_stats.actions
 	   << ",\"nontrivial_runs\":" << nontrivial_runs << ",\"distinct_nontrivial\":" << distinct_runs.size() << ",\"distinct_traces\":" << distinct_states.size()
-	   << ",\"violations\":" << violations << ",\"probes\":{";
+	   << ",\"distinct_abstract_states\":" << g_abstract_states.size() << ",\"violations\":" << violations << ",\"probes\":{";
 	bool first = true;
 	for (std::map<std::string, uint64_t>::iterator it = g_stats.probe.begin(); it != g_stats.probe.end(); ++it) { if (!first) js << ","; first = false; js << "\"" << it->first << "\":" << it->second; }
 	js << "},\"other\":{"; first = true;
